@@ -54,6 +54,8 @@ class LibWorld {
   ServerConn *conn_of_peer(int p);
   long max_message_size = -1;                 // applied to every accepted connection
   long max_received_size = -1;
+  // when set: installed as the unix-user function of every accepted connection (the application's admission rule)
+  std::function<bool(unsigned long uid)> unix_user_fn;
   // when set: called for every message an accepted connection dispatches (after it is recorded); the filter
   // then declines the message so that it goes on to the connection's object tree
   std::function<void(DBusConnection *, DBusMessage *)> on_message;
